@@ -282,8 +282,8 @@ def _norm_raw(r):
 
 # ---------------------------------------------------------------------------
 # Unit-list witness search (C09): laws of the decomposition checked on the real code
-_LEN = {'m': _F(1), 'ft': _F(3048, 10000), 'inch': _F(254, 10000), 'yard': _F(9144, 10000), 'mile': _F(1609344, 1000), 'cm': _F(1, 100)}
-_TIME = {'second': _F(1), 'minute': _F(60), 'hour': _F(3600), 'day': _F(86400), 'week': _F(604800), 'year': _F(31556925974678, 1000000)}
+_LEN = {'m': _F(1), 'ft': _F(3048, 10000), 'inch': _F(254, 10000), 'yard': _F(9144, 10000), 'mile': _F(1609344, 1000), 'cm': _F(1, 100), 'foot': _F(3048, 10000), 'meter': _F(1), 'km': _F(1000), 'kilometer': _F(1000)}
+_TIME = {'second': _F(1), 'minute': _F(60), 'hour': _F(3600), 'hr': _F(3600), 'min': _F(60), 's': _F(1), 'day': _F(86400), 'week': _F(604800), 'year': _F(315569259746784, 10000000)}
 
 
 def _check_parts(v, names, table, text):
@@ -323,8 +323,14 @@ def _unitlist_witness(o):
         return None
     cases = []
     for v in [_F(37, 10), _F(-37, 10), _F(1), _F(100), _F(-1609344, 1000), _F(0), _F(5, 2)]:
-        for names in (['ft', 'inch'], ['inch', 'ft'], ['yard', 'ft', 'inch'], ['mile', 'yard', 'ft', 'inch'], ['ft'], ['m', 'cm']):
+        for names in (['ft', 'inch'], ['inch', 'ft'], ['yard', 'ft', 'inch'], ['mile', 'yard', 'ft', 'inch'], ['m', 'cm']):
             cases.append((v, names, _LEN, '%s m' % _lit(v), None))
+    # the same unit under two names, a unit twice, fractions with a common denominator
+    for v in [_F(7, 2), _F(21, 1), _F(-7, 2)]:
+        for names in (['ft', 'foot', 'inch'], ['km', 'kilometer', 'm'], ['m', 'meter'], ['ft', 'ft'], ['yard', 'inch']):
+            cases.append((v, names, _LEN, '%s m' % _lit(v), None))
+        for names in (['hour', 'hr', 'min'], ['hour', 'hour'], ['min', 'minute', 's']):
+            cases.append((v * 3600, names, _TIME, '%s s' % _lit(v * 3600), None))
     for v in [_F(-5400), _F(100000), _F(90061), _F(1, 1000), _F(-1, 1000)]:
         for names in (['hour', 'minute', 'second'], ['hour', 'second', 'minute'], ['day', 'hour', 'minute', 'second']):
             cases.append((v, names, _TIME, '%s s' % _lit(v), None))
@@ -345,7 +351,7 @@ def _unitlist_witness(o):
         if why:
             return {'replayer': 'unitlist', 'input': {'query': q, 'defs': None, 'value': str(v), 'units': names}, 'output': text, 'why': why, 'cmd': '%s %r' % (QUERY_BIN, q)}
     # the automatic duration breakdown
-    for v in [_F(-5400), _F(100000), _F(90061), _F(31556926), _F(-1, 1000)]:
+    for v in [_F(-5400), _F(100000), _F(90061), _F(31556926), _F(-1, 1000), _F(34560000), _F(-100000000), _F(315569259746784, 10000000) + 1, _F(3 * 315569259746784, 10000000)]:
         q = '%s s' % _lit(v)
         (ln, text, raw) = run_queries([q])[0]
         names = ['year', 'week', 'day', 'hour', 'minute', 'second']
@@ -579,7 +585,11 @@ _LOOKUP_CASES = [
     ('ks / kilosecond', 'RAW 1/1 | '), ('pcs / pc', 'RAW 1/1 | '), ('hands / hand', 'RAW 1/1 | '), ('mm / (milli m)', 'RAW 1/1 | '),
     ('1 at -> dat', '10 decitechnicalatmosphere (pressure)'), ('1 micron -> mm', '0.001 millimeter (length)'),
     ('dam / (deca m)', 'RAW 1/1 | '), ('min / (60 s)', 'RAW 1/1 | '), ('1 m', '1 meter (length)'),
+    ('yoctodecillion / (yocto decillion)', 'RAW 1/1 | '), ('yoctodecillions / (yocto decillion)', 'RAW 1/1 | '), ('ym / (yocto m)', 'RAW 1/1 | '),
+    ('daA / (deci aA)', 'RAW 1/1 | '), ('1 kclick / (1000 click)', 'RAW 1/1 | '),
 ]
+# resolution does not depend on what was resolved before: every case is also asked after these, in one process
+_LOOKUP_HISTORY = ['dam', 'ym', 'kfoo', 'yoctometer', 'dat', 'mm']
 _LOOKUP_SUBST = ('widget {\n    mass const widget_mass 3 kg\n    weight const widget_weight mass gravity\n}\n', 'weight of widget', 'RAW 588399/20000 | kg:1,m:1,s:-2')
 
 
@@ -594,16 +604,18 @@ def _lookup_witness():
         if want == 'ERR':
             return text.startswith('ERR')
         return bool(text) and text.splitlines()[0].startswith(want)
-    for q, want in _LOOKUP_CASES:
-        rc, so, se, dt = run([QUERY_BIN, '--defs', _LOOKUP_DEFS, q], timeout=20)
-        body = so.split('> ' + q, 1)[1].strip() if ('> ' + q) in so else so
-        raw = None
-        for l in body.splitlines():
-            if l.startswith('RAW '):
-                raw = l[4:]
-        if not judge(body, raw, want):
-            return {'replayer': 'lookup', 'input': {'defs': _LOOKUP_DEFS, 'query': q, 'expected': want}, 'output': body, 'why': 'expected %r, got %r' % (want, (body.splitlines() or [''])[0] + (' / RAW ' + raw if raw else '')),
-                    'cmd': '%s --defs %r %r' % (QUERY_BIN, _LOOKUP_DEFS, q)}
+    for hist in ([], _LOOKUP_HISTORY):
+        for q, want in _LOOKUP_CASES:
+            rc, so, se, dt = run([QUERY_BIN, '--defs', _LOOKUP_DEFS] + hist + [q], timeout=30)
+            body = so.rsplit('> ' + q, 1)[1].strip() if ('> ' + q) in so else so
+            raw = None
+            for l in body.splitlines():
+                if l.startswith('RAW '):
+                    raw = l[4:]
+            if not judge(body, raw, want):
+                return {'replayer': 'lookup', 'input': {'defs': _LOOKUP_DEFS, 'history': hist, 'query': q, 'expected': want}, 'output': body,
+                        'why': 'expected %r%s, got %r' % (want, (' after the queries %s' % hist) if hist else '', (body.splitlines() or [''])[0] + (' / RAW ' + raw if raw else '')),
+                        'cmd': '%s --defs %r %s %r' % (QUERY_BIN, _LOOKUP_DEFS, ' '.join(repr(h) for h in hist), q)}
     defs, q, want = _LOOKUP_SUBST
     rc, so, se, dt = run([QUERY_BIN, '--defs', defs, q], timeout=20)
     body = so.split('> ' + q, 1)[1].strip() if ('> ' + q) in so else so
@@ -1873,7 +1885,7 @@ _FUNC_CASES = [
     ('asin(0.5)', 'radian:1'), ('asin(0.5 radian)', None), ('asin(0.5 m)', None),
     ('acos(0.5)', 'radian:1'), ('acos(0.5 radian)', None), ('atan(0.5)', 'radian:1'), ('atan(0.5 radian^2)', None), ('atan(1 m)', None),
     ('atan2(1 m, 2 m)', 'radian:1'), ('atan2(1 m, 2 s)', None), ('atan2(1, 2 radian)', None), ('atan2(1, 2)', 'radian:1'),
-    ('hypot(3 m, 4 m)', 'm:1'), ('hypot(3 m, 4 s)', None), ('hypot(3, 4 radian)', None), ('hypot(3 m^2, 4 m^2)', 'm:2'),
+    ('hypot(3 m, 4 m)', 'm:1'), ('hypot(5 m^5, 4 s^7)', None), ("hypot(3 'apple', 4 'pear')", None), ("atan2(3 'apple', 2 'apple'^2)", None), ('atan2(5 m^5, 4 s^7)', None), ('hypot(3 m^5, 4 m^5)', 'm:5'), ('(3 m)^0', ''), ('(3 m)^0 + 1', ''), ('3661.5 s -> hour;min;meter', None), ('1500.5 m -> km;m;s', None), ('hypot(3 m, 4 s)', None), ('hypot(3, 4 radian)', None), ('hypot(3 m^2, 4 m^2)', 'm:2'),
     ('sqrt(4 m^2)', 'm:1'), ('sqrt(4 m^3)', None), ('sqrt(4 m^2 / s^4)', 'm:1,s:-2'), ('sqrt(4 radian^2)', 'radian:1'),
 ]
 
@@ -2061,4 +2073,99 @@ def find_witness(o, rep):  # noqa: F811
         return w
     if rep.get('property') == 'C01' or o.get('unit') in ('bigwrap', 'arith', 'parser', 'lexer'):
         return _exactcases_witness()
+    return None
+
+
+# ---- temperature (C10): the six scales against the textbook affine formulas, exactly (bounded stand-in / witness) ----
+def _temp_to_kelvin(scale, x):
+    F = _F
+    return {'degC': x + F(27315, 100), 'degF': (x + F(45967, 100)) * F(5, 9), 'degRe': x * F(5, 4) + F(27315, 100),
+            'degRo': (x - F(15, 2)) * F(40, 21) + F(27315, 100), 'degDe': F(37315, 100) - x * F(2, 3), 'degN': x * F(100, 33) + F(27315, 100)}[scale]
+
+
+def _temp_from_kelvin(scale, k):
+    F = _F
+    return {'degC': k - F(27315, 100), 'degF': k * F(9, 5) - F(45967, 100), 'degRe': (k - F(27315, 100)) * F(4, 5),
+            'degRo': (k - F(27315, 100)) * F(21, 40) + F(15, 2), 'degDe': (F(37315, 100) - k) * F(3, 2), 'degN': (k - F(27315, 100)) * F(33, 100)}[scale]
+
+
+def _temperature_witness():
+    if build_core() != 0:
+        return None
+    F = _F
+    scales = ['degC', 'degF', 'degRe', 'degRo', 'degDe', 'degN']
+    xs = [F(0), F(100), F(-40), F(1, 3), F(75, 2), F(80), F(-150)]
+
+    def fail(q, text, why):
+        return {'replayer': 'query', 'input': {'query': q, 'expected': why}, 'output': text, 'why': why, 'cmd': '%s %r' % (QUERY_BIN, q)}
+    for s in scales:
+        for x in xs:
+            lit = '(%d/%d)' % (x.numerator, x.denominator)
+            q = '%s %s' % (lit, s)
+            (ln, text, raw) = run_queries([q])[0]
+            want = _temp_to_kelvin(s, x)
+            if raw is None or raw.split(' | ')[0].strip() != '%d/%d' % (want.numerator, want.denominator):
+                return fail(q, text, 'expected the absolute temperature %s K, got %s' % (want, raw or (text.splitlines() or [''])[0]))
+            for t in scales:
+                q2 = '%s %s -> %s' % (lit, s, t)
+                (ln, text, raw) = run_queries([q2])[0]
+                want2 = _temp_from_kelvin(t, want)
+                if raw is None or raw.split(' | ')[0].strip() != '%d/%d' % (want2.numerator, want2.denominator):
+                    return fail(q2, text, 'expected %s on the %s scale, got %s' % (want2, t, raw or (text.splitlines() or [''])[0]))
+    # refusals: dimensioned operands and compound targets
+    for q in ['(5 m) degC', '5 kelvin degF', '300 K -> degC meter', '300 K -> degC / 2', '300 K -> 2 degC', '300 K -> degC degF', '3 m -> degC']:
+        (ln, text, raw) = run_queries([q])[0]
+        if not text.startswith('ERR'):
+            return fail(q, text, 'expected a refusal, got: ' + (text.splitlines() or [''])[0])
+    return None
+
+
+_sf40 = search_family
+
+
+def search_family(fam, prop):  # noqa: F811
+    if fam == 'temperature':
+        return _temperature_witness()
+    if fam == 'datecases':
+        return _datecases_witness()
+    return _sf40(fam, prop)
+
+
+# ---- datecases (C14): date arithmetic across clock changes, zones against offsets, sub-second literals ----
+def _datecases_witness():
+    if build_core() != 0:
+        return None
+
+    def fail(q, text, why):
+        return {'replayer': 'query', 'input': {'query': q, 'expected': why}, 'output': text, 'why': why, 'cmd': '%s %r' % (QUERY_BIN, q)}
+    # (query, expected exact seconds as 'n/d')
+    exact = [
+        ('(#2021-03-13 12:00:00 US/Eastern# + 1 day) - #2021-03-13 12:00:00 US/Eastern#', '86400/1'),
+        ('(#2021-11-06 12:00:00 US/Eastern# + 1 day) - #2021-11-06 12:00:00 US/Eastern#', '86400/1'),
+        ('(#2021-03-27 12:00:00 Europe/Berlin# + 36 hour) - #2021-03-27 12:00:00 Europe/Berlin#', '129600/1'),
+        ('(#2021-10-30 12:00:00 Europe/Berlin# - 36 hour) - #2021-10-30 12:00:00 Europe/Berlin#', '-129600/1'),
+        ('#2020-01-01 12:00:00 +00:00# - #2020-01-01 12:00:00 Asia/Tokyo#', '32400/1'),
+        ('#2020-01-01 12:00:00 Asia/Tokyo# - #2020-01-01 12:00:00 +00:00#', '-32400/1'),
+        ('#2021-03-15 00:00:00 US/Eastern# - #2021-03-13 00:00:00 US/Eastern#', '169200/1'),
+        ('#2021-11-08 00:00:00 US/Eastern# - #2021-11-06 00:00:00 US/Eastern#', '176400/1'),
+        ('#2020-01-01 00:00:00 US/Pacific# - #2020-01-01 00:00:00 -08:00#', '0/1'),
+        ('#2020-07-01 00:00:00 US/Pacific# - #2020-07-01 00:00:00 -07:00#', '0/1'),
+        ('#2020-01-01 00:00:00.5136# - #2020-01-01 00:00:00#', '321/625'),
+        ('#2020-01-01 00:00:00.5186# - #2020-01-01 00:00:00#', '2593/5000'),
+        ('#2020-01-01 00:00:00.0319# - #2020-01-01 00:00:00#', '319/10000'),
+        ('#2020-01-01 00:00:00.123456789# - #2020-01-01 00:00:00#', '123456789/1000000000'),
+        ('#2020-01-01 00:00:00.000000001# - #2020-01-01 00:00:00#', '1/1000000000'),
+        ('#2020-01-01 00:00:00.7# - #2020-01-01 00:00:00#', '7/10'),
+        ('#2020-01-01 00:00:00.07# - #2020-01-01 00:00:00.03#', '1/25'),
+        ('(#2020-02-28 12:00:00# + 2 day) - #2020-03-01 12:00:00#', '0/1'),
+        ('(#2020-01-01 00:00:00# + 1.5 s) - #2020-01-01 00:00:00#', '3/2'),
+        ('(#2020-01-01 00:00:00# - 1|3 ms) + 1|3 ms - #2020-01-01 00:00:00#', None),
+    ]
+    for q, want in exact:
+        if want is None:
+            continue
+        q = '(%s) -> s' % q
+        (ln, text, raw) = run_queries([q])[0]
+        if raw is None or raw.split(' | ')[0].strip() != want:
+            return fail(q, text, 'expected exactly %s s, got %s' % (want, raw or (text.splitlines() or [''])[0]))
     return None
